@@ -112,20 +112,30 @@ def run_model(drv, case):
     out = {"single": None, "seq": None}
     if case.get("Nrep"):
         # a multi-repetition study: repetition i is the single run with F_rand = the draw of seed i
-        rows = []
-        for i in range(int(case["Nrep"])):
-            r = drv.call(su.model_request(case, rec, prog=progs[0], Frand=su.recorded_frand(i), old=False,
-                                          row_stride=10 ** 9))
-            rows.append(su.decode_model(r))
-        out["table"] = rows
+        tables = []
+        for pr in progs:
+            rows = []
+            for i in range(int(case["Nrep"])):
+                r = drv.call(su.model_request(case, rec, prog=pr, Frand=su.recorded_frand(i), old=False,
+                                              row_stride=10 ** 9))
+                rows.append(su.decode_model(r))
+                if rows[-1]["raise"]:
+                    break  # the study stops at the first repetition that raises
+            tables.append(rows)
+        out["tables"] = tables
         return out
     frs = [pr["Frand"] if pr.get("Frand") is not None else su.recorded_frand(0) for pr in progs]
     if len(progs) == 1:
         r = drv.call(su.model_request(case, rec, prog=progs[0], Frand=frs[0], old=True, traces=False,
                                       row_stride=case.get("row_stride", 37)))
         out["single"] = su.decode_model(r)
-    reqs = [su.model_request(case, rec, prog=pr, Frand=fr, old=True, row_stride=10 ** 9) for pr, fr in zip(progs, frs)]
-    for tag, fixed in (("seq", False), ("seq_fixed", True)):
+    # constants of the configuration in force at each run (`S.configPath = …` between runs re-derives them)
+    recs = [rec if not any(pr.get("reconfig") for pr in progs[1:k + 1]) else su.record_inputs(su.case_of_run(case, k))
+            for k in range(len(progs))]
+    reqs = [su.model_request(case, rk, prog=pr, Frand=fr, old=True, row_stride=10 ** 9)
+            for rk, pr, fr in zip(recs, progs, frs)]
+    # (the pre-repair variant of run(), SnowObj.run, is kept in Lean for the counter-example theorem only)
+    for tag, fixed in (("seq_fixed", True),):
         r = drv.call({"op": "snowingRuns", "dim": case["dim"], "fixed": fixed, "runs": reqs})
         if "error" in r:
             raise RuntimeError(r["error"])
@@ -176,20 +186,24 @@ def _cmp_seq(a, b):
 def _cmp_table(case, impl, model):
     """results table of an Nrep > 1 study, column by column against the single-run model of every seed"""
     dis = []
-    run = impl["runs"][0]
-    rows = model["table"]
-    exp_raise = next((m["raise"] for m in rows if m["raise"]), None)
-    if (run["raise"] or None) != exp_raise:
-        return [f"exception: impl {run['raise']} vs model {exp_raise}"]
-    if run["raise"]:
-        return dis
-    tab = run["snap"].get("results_table")
-    if not isinstance(tab, list) or len(tab) != len(rows):
-        return [f"results table: impl {tab if not isinstance(tab, list) else len(tab)} rows vs model {len(rows)}"]
-    for i, (a, m) in enumerate(zip(tab, rows)):
-        for key, v in m["stats"].items():
-            if not close(a.get(key), v):
-                dis.append(f"repetition {i}: column {key} impl {a.get(key)!r} vs model {v!r}")
+    for k, (run, rows) in enumerate(zip(impl["runs"], model["tables"])):
+        exp_raise = next((m["raise"] for m in rows if m["raise"]), None)
+        if (run["raise"] or None) != exp_raise:
+            dis.append(f"run {k}: exception impl {run['raise']} vs model {exp_raise}")
+            continue
+        tab = run["snap"].get("results_table")
+        if run["raise"]:
+            # run() raised: the table of the study must not be readable (the model has no result at all)
+            if not (isinstance(tab, dict) and "raise" in tab):
+                dis.append(f"run {k}: results table readable after the study raised ({len(tab)} rows)")
+            continue
+        if not isinstance(tab, list) or len(tab) != len(rows):
+            dis.append(f"run {k}: results table impl {tab if not isinstance(tab, list) else len(tab)} rows vs model {len(rows)}")
+            continue
+        for i, (a, m) in enumerate(zip(tab, rows)):
+            for key, v in m["stats"].items():
+                if not close(a.get(key), v):
+                    dis.append(f"run {k}, repetition {i}: column {key} impl {a.get(key)!r} vs model {v!r}")
     return dis[:6]
 
 
@@ -340,7 +354,10 @@ def _check_complete_run(case, prog, impl, run, site, out):
             w = su.simpson_weights(30, c["height"] / 29)
             sig = (a * c["mass"]) @ w / c["height"] / (c["mass"] - c["mass_solute"]) if len(a) else np.array([])
         else:
-            sig = None
+            # integrated frozen-water fraction with the cylindrical volume element 2 pi r dr dz
+            wz, wr = su.cyl_weights(c)
+            vol = np.einsum("tzr,z,r->t", a.reshape(len(a), 30, 15), wz, wr) if len(a) else np.array([])
+            sig = vol / (np.pi * (c["diameter"] / 2) ** 2 * c["height"]) * c["mass"] / (c["mass"] - c["mass_solute"])
     if sig is not None and len(sig):
         rows_steps = np.arange(len(sig)) * ss
         before = sig[rows_steps < i_sol]
@@ -413,7 +430,15 @@ def predicates(case, impl):
             # must raise: anything readable is data of an incomplete run
             readable = [nm for nm in ("results",) + ARRS
                         if not (isinstance(run["snap"][nm], dict) and "raise" in run["snap"][nm])]
-            if readable and not partial:
+            if readable and not partial and case.get("Nrep") and "results" not in readable:
+                # a sequential multi-repetition study that raised in a LATER repetition: `results` refuses, but the
+                # histories of the last completed repetition stay readable
+                out.append(Failure(clause="complete_or_raise",
+                                   key=f"complete_or_raise|{cls}|histories-of-a-completed-repetition-after-failed-study|{site}",
+                                   detail=f"run {k} (Nrep={case['Nrep']}, sequential) raised {run['raise']} in a later "
+                                          f"repetition; `results` raises but {readable} return the histories of the "
+                                          f"last repetition that completed"))
+            elif readable and not partial:
                 out.append(Failure(clause="complete_or_raise",
                                    key=f"complete_or_raise|{cls}|readable-after-failed-run|{site}",
                                    detail=f"run {k} raised {run['raise']} but these accessors still return data: "
@@ -432,7 +457,8 @@ def predicates(case, impl):
                 # `.results` is the table of all repetitions, the arrays are those of the last one
                 _check_table(case, prog, impl, run, site, out)
             else:
-                _check_complete_run(case, prog, impl, run, site, out)
+                impl_k = dict(impl, const=run["const"]) if run.get("const") else impl
+                _check_complete_run(case, prog, impl_k, run, site, out)
             had_complete = True
     return out
 
@@ -561,7 +587,37 @@ def cases_2d_short(tier):
     return out
 
 
+def cases_nrep_later_fails():
+    """ONE object, sequential study of several repetitions: first a programme in which every seed freezes, then a
+    t_tot placed - by means of single model runs per seed - between the freezing times of two seeds, so that
+    repetition 0 completes and a LATER repetition fails: run() raises and nothing of the failed study may be shown"""
+    p0 = dict(dim="0D", config="shelf", k_s0=100, start=20, stop=-50, rate=0.1, holds=None, cnTemp=None, Frand=None)
+    try:
+        rec = su.record_inputs(dict(p0, t_tot=3000))
+        drv = core.Driver()
+        tf = []
+        for i in range(8):
+            m = su.decode_model(drv.call(su.model_request(dict(p0, t_tot=3000), rec, Frand=su.recorded_frand(i),
+                                                          row_stride=10 ** 9)))
+            tf.append(m["stats"]["t_fr"] * 60 if not m["raise"] else None)
+        drv.close()
+        if any(t is None for t in tf):
+            return
+        j = next((j for j in range(1, 8) if tf[j] > max(tf[:j]) + 0.25), None)
+        if j is None:
+            return
+        short = (tf[j] + max(tf[:j])) / 2
+        c = dict(p0, t_tot=3000, Nrep=j + 1, how="sequential", kind=f"Nrep={j + 1}:later-repetition-fails")
+        c["runs"] = [dict(t_tot=short, start=20, stop=-50, rate=0.1, holds=None, cnTemp=None, Frand=None)]
+        yield c
+    except Exception:
+        return
+
+
 def cases(rng, tier):
+    yield su.jacket_case()
+    for c in cases_nrep_later_fails():
+        yield c
     for c in cases_2d_short(tier):
         yield c
     for c in cases_reprogram() + cases_nrep():
